@@ -146,13 +146,14 @@ def pop(o):
     return "PDisable" if o["op"] == "disable" else "PEnable"
 
 
-def rstate(st):
+def rstate(st, issued=0):
     pc = "None"
     if st["has"]:
-        pc = "(Some (mkPC %d %s %s %s %s))" % (st["code"], Z(st["valid"]), Z(st["expire"]), bl(st["consumed"]),
-                                              Z(st["tried"]))
+        pc = "(Some (mkPC %d %s %s %s %s %s %s))" % (st["code"], bl(st.get("hasvalid")), Z(st["valid"]),
+                                                    bl(st.get("hasexpire")), Z(st["expire"]), bl(st["consumed"]),
+                                                    Z(st["tried"]))
     rid = "(Some %d)" % st["id"] if st["id"] else "None"
-    return "(mkR %s %s %s 0)" % (bl(st["disabled"]), pc, rid)
+    return "(mkR %s %s %s %d)" % (bl(st["disabled"]), pc, rid, issued)
 
 
 def to_coq(c):
@@ -178,8 +179,23 @@ def to_coq(c):
         exp = "(Some (%s, %s))" % (B(o.get("out")), Z(o["left"])) if o["ok"] else "None"
         return "CSessCheck %s %d %s %s %s" % (mtab(c.get("macs")), c["key"], Z(c["now"]), B(c.get("tok")), exp)
     if op == "gatecheck":
-        return "CGate %s %d %s %s %s" % (mtab(c.get("macs")), c["key"], Z(c["now"]), B(c.get("tok")),
-                                         OB(o["ok"], o.get("out")))
+        exp = "(Some (%s, %s))" % (B(o.get("out")), bl(o.get("refresh"))) if o["ok"] else "None"
+        return "CGate %s %d %s %s %s %s" % (mtab(c.get("macs")), c["key"], Z(c["maxttl"]), Z(c["now"]),
+                                            B(c.get("tok")), exp)
+    if op == "chalcheck":
+        ct = "(Some %s)" % Z(c["t0"]) if c.get("t0") is not None else "None"
+        return "CChal %s %d %s %s %s %s %d" % (mtab(c.get("macs")), c["key"], Z(c["window"]), Z(c["now"]),
+                                              B(c.get("tok")), ct, o["err"])
+    if op == "coresign":
+        privs = "[" + "; ".join("(%s, %s)" % (B(p["id"]), bl(p["parse"])) for p in c.get("privs") or []) + "]"
+        card = "[" + "; ".join(pkey(k) for k in c.get("card") or []) + "]"
+        return "CCoreSign %s %s %s %s %d %s" % (privs, card, B(c.get("user")), Z(c["now"]), o["err"], B(o.get("out")))
+    if op == "exchange":
+        card = "[" + "; ".join(pkey(k) for k in c.get("card") or []) + "]"
+        return "CExchange %s %s %s %s %s %s %s %s %s %s %d %s %d %s %s" % (
+            card, B(c.get("data")), B(c.get("host")), B(c.get("user")), Z(c["now"]), B(c.get("tok")),
+            ohdr(c.get("hp")), oclm(c.get("cp")), Z(c["ttl"]), mtab(c.get("macs")), c["key"], Z(c["maxttl"]),
+            o["err"], B(o.get("out")), Z(o.get("expires", 0)))
     if op == "tsnew":
         return "CTsNew %s %d %s %s" % (mtab(c.get("macs")), c["key"], Z(c["t0"]), B(o.get("out")))
     if op == "tscheck":
@@ -208,7 +224,11 @@ def to_coq(c):
     if op == "pass":
         ops = "[" + "; ".join(pop(x) for x in c["ops"]) + "]"
         exp = "[" + "; ".join("(%d, %s)" % (r["r"], rstate(r["st"])) for r in o.get("pass") or []) + "]"
-        return "CPass %s %s %s" % (Z(c["expiry"]), ops, exp)
+        start = "init_state"
+        if c.get("start"):
+            st = dict(c["start"], disabled=False, id=0)
+            start = rstate(st, 1 if st["has"] else 0)
+        return "CPass %s %s %s %s" % (Z(c["expiry"]), start, ops, exp)
     raise ValueError(op)
 
 
@@ -223,6 +243,13 @@ def pass_oracle(c):
     preceded by at most ten refused attempts on that code."""
     cur = None  # dict(code, valid, expire, wrong, used)
     issued = 0
+    st0 = c.get("start")
+    if st0 and st0["has"]:
+        issued = 1
+        cur = {"code": 1, "valid": int(st0["valid"]) if st0.get("hasvalid") else None,
+               "expire": int(st0["expire"]) if st0.get("hasexpire") else None,
+               # a counter the operations cannot have produced is not read as a count of attempts
+               "wrong": st0["tried"] if 0 <= st0["tried"] <= 1000 else 0, "used": st0["consumed"]}
     for i, (op, res) in enumerate(zip(c["ops"], c["obs"].get("pass") or [])):
         if op["op"] == "new" and res["r"] == 0:
             issued += 1
@@ -237,6 +264,8 @@ def pass_oracle(c):
                     return "accepted-wrong-code", "attempt %d accepted with a code that is not the current one" % i
                 if cur["used"]:
                     return "accepted-twice", "attempt %d accepted although the code had been used" % i
+                if cur["valid"] is None or cur["expire"] is None:
+                    return "accepted-without-window", "attempt %d accepted on a record that has no validity window" % i
                 if not (cur["valid"] <= t <= cur["expire"]):
                     return "accepted-outside-window", "attempt %d accepted at %d outside [%d, %d]" % (
                         i, t, cur["valid"], cur["expire"])
@@ -305,6 +334,31 @@ class Oracle:
         if op == "pass":
             r = pass_oracle(c)
             return ("passcode:" + r[0], r[1]) if r else None
+        if op == "coresign":
+            if not o["ok"]:
+                return None
+            now, kid, req = int(c["now"]), o.get("out", ""), c.get("user", "")
+            keys = [k for k in c.get("card") or [] if k["id"] == kid]
+            good = any(k["type"] == "7373682d727361" and (int(k["nvb"]) <= 0 or now >= int(k["nvb"]) * NS)
+                       and now <= int(k["nva"]) * NS for k in keys[:1])
+            if not good or (req and kid != req) or not any(p["id"] == kid for p in c.get("privs") or []):
+                return ("coresign:signed-with-unusable-key",
+                        "simpleCore.Sign signed with key %r (asked for %r) which is not a registered, valid RSA key then"
+                        % (txt(kid), txt(req)))
+            return None
+        if op == "exchange" and o["ok"]:
+            cp, now = c.get("cp"), int(c["now"])
+            if not cp or not jwt_time_ok(cp, now):
+                return "exchange:accepted-outside-time", "a session was issued for an access token outside its time window"
+            for want, got in ((c.get("data", ""), cp["iss"]), (c.get("host", ""), cp["aud"]), (c.get("user", ""), cp["sub"])):
+                if want and want != got:
+                    return "exchange:accepted-foreign-claims", "a session was issued for another issuer/audience/user"
+            if int(c["ttl"]) <= 0:
+                return "exchange:nonpositive-ttl", "a session was issued for a non-positive lifetime"
+            if int(o["expires"]) - now > max(int(c["maxttl"]), 0) or int(o["expires"]) - now > int(c["ttl"]):
+                return "exchange:lifetime-not-capped", "the session outlives the requested or the maximum lifetime"
+            if not o.get("payok"):
+                return "exchange:session-not-usable-as-issued", "the session issued is not accepted for that user until its expiry"
         if op == "sessnew":
             exp, t0, mx = int(o["expires"]), int(c["t0"]), int(c["maxttl"])
             if exp > t0 + mx:
@@ -317,6 +371,8 @@ class Oracle:
             if not o["ok"] and want:
                 return "claims:rejected-match", "CheckClaimSet rejected matching claims"
             return None
+        if op == "jwttime" and c.get("note") == "wrap":
+            return None  # beyond |sec| <= 2^62 the property has no opinion; the model pins the behaviour
         if op == "jwttime":
             want = jwt_time_ok(c["c"], int(c["now"]))
             if o["ok"] != want:
@@ -325,6 +381,10 @@ class Oracle:
             return None
         if op == "jwths" and o["ok"] and c.get("hp") != c.get("pin"):
             return "jwt-hs:accepted-unpinned-header", "a token whose header is not the pinned one was accepted"
+        if op == "jwths" and o["ok"] and c.get("cp") and all(abs(int(c["cp"][f])) <= 2 ** 62 for f in ("iat", "exp")) \
+                and not jwt_time_ok(c["cp"], int(c["now"])):
+            return ("jwt-hs:accepted-outside-parsed-time",
+                    "a token was accepted outside the time window of the claims encoding/json parses from it")
         if op in ("jwtrs", "selfverify") and o["ok"] and txt((c.get("hp") or {}).get("alg", "")) != b"RS256":
             return "jwt-rs:accepted-other-alg", "a token whose header alg is not RS256 was accepted"
         if mu is None:
@@ -346,7 +406,19 @@ class Oracle:
                 return fam + ":genuine-rejected", "an issued token was rejected"
             if o.get("out", "") != info.get("payload", ""):
                 return fam + ":wrong-payload", "verification returned a payload other than the signed one"
+        elif op == "chalcheck":
+            t0, w = int(c["t0"]), int(c["window"])
+            want = t0 <= now <= t0 + w
+            if accepted != want:
+                return ("challenge:%s" % ("accepted-outside-window" if accepted else "genuine-rejected"),
+                        "challenge of %d checked at %d with window %d gave %s" % (t0, now, w, accepted))
+        elif op == "exchange":
+            pass
         elif op in ("sesscheck", "gatecheck"):
+            if op == "gatecheck" and accepted and int(c["maxttl"]) > 0 and \
+                    bool(o.get("refresh")) != (info["expires"] - now < int(c["maxttl"]) // 5):
+                return "authgate:wrong-refresh-advice", "NeedRefresh=%s with %d ns left of %s" % (
+                    o.get("refresh"), info["expires"] - now, c["maxttl"])
             want = now < info["expires"]
             if accepted and not want:
                 return "session:accepted-at-or-after-expiry", "session accepted %d ns after its expiry" % (now - info["expires"])
@@ -388,7 +460,8 @@ class Oracle:
             if accepted and not key_ok:
                 return ("jwt-rs:accepted-without-valid-key",
                         "token accepted though the key its header names does not verify it or is not valid then")
-            if (mu["class"] == "kidmatrix" and not accepted and want_time and keys and keys[0]["parse"]
+            in_range = all(abs(int(k[f])) <= 2 ** 62 for k in keys for f in ("nvb", "nva"))
+            if (mu["class"] == "kidmatrix" and in_range and not accepted and want_time and keys and keys[0]["parse"]
                     and keys[0]["sigok"] and keys[0]["type"] == "7373682d727361"
                     and (int(keys[0]["nvb"]) <= 0 or now >= int(keys[0]["nvb"]) * NS)
                     and now <= int(keys[0]["nva"]) * NS):
@@ -521,6 +594,23 @@ def run(ck):
             agg = ck.coverage["sweep_classes"][c["fam"]][c["class"]]
             agg[0] += c.get("n", 0)
             agg[1] += c.get("accepted", 0)
+            continue
+        if c["op"] == "jsonpin":
+            ck.count(c["stream"], key=(c["note"],))
+            if not c["obs"]["ok"]:
+                ck.violation("impl:json:leniency-changed:" + c["note"],
+                             "encoding/json into the jwt header/claims types now makes %r of %r (pinned: %r)" % (
+                                 txt(c.get("host", "")).decode("utf8", "replace"),
+                                 txt(c.get("data", "")).decode("utf8", "replace"),
+                                 txt(c.get("user", "")).decode("utf8", "replace")),
+                             {"case": c, "expected": txt(c.get("user", "")).decode("utf8", "replace"),
+                              "observed": txt(c.get("host", "")).decode("utf8", "replace")})
+            continue
+        if c["op"] == "passconc":
+            ck.count(c["stream"], key=(c["note"], c.get("n", 0)))
+            if c["obs"].get("crash") or not c["obs"]["ok"]:
+                ck.violation("impl:passcode:concurrent-attempts", "%s: %s" % (c["note"], c["obs"].get("errtext")),
+                             {"case": c, "expected": "the code is accepted at most once", "observed": c["obs"]})
             continue
         if c["op"] == "roleverify":
             ck.count(c["stream"], key=(c["note"],))
